@@ -5,8 +5,11 @@ P=$SD/patch.diff; [ -f $SD/patch.rebased.diff ] && P=$SD/patch.rebased.diff
 cd /repo || exit 2
 git apply --check $P 2>/dev/null || { echo "$SD: PATCH-DOES-NOT-APPLY"; exit 3; }
 git apply $P
+# evidence files must describe /repo itself, not a mutant: keep them aside while the mutant is checked
+rm -rf /var/tmp/verif-evidence-keep && cp -r /verif/evidence /var/tmp/verif-evidence-keep
 for c in "$@"; do
   out=$(cd /verif && ./check $c --tier quick 2>&1); rc=$?
   echo "$SD $c rc=$rc $(echo "$out" | grep -c '^VIOLATION') violation line(s): $(echo "$out" | grep -m2 "^\[$c\] $c:\|^\[$c\] C[0-9]*:\|FAILED:" | cut -c1-160 | tr '\n' '|')"
 done
 git checkout -- . ; git clean -fdq nexosim/tests 2>/dev/null
+rm -rf /verif/evidence && mv /var/tmp/verif-evidence-keep /verif/evidence
